@@ -7,5 +7,6 @@ ProgK   == <<S(1)>>
 FinR  == <<"ret">>
 FinP  == <<"panic">>
 NoThread == {}
+AllThreads == 1..NT
 Only1 == {1}
 =============================================================================
